@@ -5,7 +5,7 @@ from . import monitors as M
 PLAN = [('slowbody', 6, 2), ('timeouts', 7, 4), ('shutdown', 5, 2)]
 MONITORS = [M.mon_accept_once, M.mon_roundtrip, M.mon_timeout, M.mon_one_outcome, M.mon_completion_barrier]
 THEOREMS = "C05_cancel_all, C05_first_cancel_wins, C05_cancel_unblocks, C05_expiry, C05_release_point, C05_fresh_after"
-CORPUS = ['C05']
+CORPUS = ['C05', 'C08']
 
 
 def check(ctx):
